@@ -156,6 +156,7 @@ pub struct Obs {
     /// histogram of (new frame N - confirmed frame) at first simulations; index = distance
     pub c04_dist: [u64; 20],
     pub c04_at_limit: u64,
+    pub c04_indep_checks: u64,
     pub lockstep_stalls: u64,
     pub lockstep_advances: u64,
     pub saved_invariant_checks: u64,
@@ -604,6 +605,9 @@ impl<P: Pred> World<P> {
             let wait_ms = core.nodes[ni].cfg.wait_ms;
             if wait > 0 {
                 core.net.borrow_mut().spin_ns = 500_000;
+            }
+            if std::env::var("VERIF_TRACE_NODE").is_ok() {
+                eprintln!("BEGIN node {ni} t={}ms", (t - T0) / MS);
             }
             let (res, ast) = crate::alloc::region(true, || {
                 guarded(|| match wait {
@@ -1080,6 +1084,27 @@ impl Core {
                     let d = format!("simulated new frame {pre} while the newest frame with all inputs is {conf} (window {mp})");
                     self.viol("C04", addr, t, "new frame simulated beyond the prediction window", d);
                     return;
+                }
+                // the same bound against the harness's OWN record of what was handed to this session: the newest input
+                // frame delivered from every remote address whose players are still connected (a session cannot know
+                // more than was delivered to it, so this never under-estimates what it knows)
+                let known: Option<i32> = {
+                    let net = self.net.borrow();
+                    self.scn
+                        .peers
+                        .iter()
+                        .enumerate()
+                        .filter(|(pi, hs)| peer_addr(*pi) != addr && hs.iter().any(|h| !cs[*h].0))
+                        .map(|(pi, _)| net.max_input_frame_delivered.get(&(peer_addr(pi), addr)).copied().unwrap_or(-1))
+                        .min()
+                };
+                if let Some(k) = known {
+                    self.obs.c04_indep_checks += 1;
+                    if pre - k > mp {
+                        let d = format!("simulated new frame {pre} while the newest frame delivered from every connected remote is {k} (window {mp}; confirmed_frame() = {conf})");
+                        self.viol("C04", addr, t, "new frame simulated beyond the prediction window", d);
+                        return;
+                    }
                 }
             }
             let mut f = pre;
